@@ -362,6 +362,29 @@ def _roundtrip(ctx, io, err, case, schema, data, tf, path):
                     break
             if bad:
                 break
+    # file-level clause: cells equal to the fill are written as the missing marker (and only those)
+    try:
+        import csv as _csv
+
+        text = raw.decode("utf-8")
+        body = text.split("---\n", 2)[2] if text.count("---\n") >= 2 else ""
+        rows = [r for r in _csv.reader(body.splitlines(True), delimiter=schema["delimiter"]) if r != []]
+        badfile = None
+        if len(rows) == 1 + len(data[0]):
+            for ri, row in enumerate(rows[1:]):
+                for ci, ((typ, g, tfill), col) in enumerate(zip(tf, data)):
+                    exp, fc = expected_cell(typ, tfill, g, col[ri])
+                    is_missing = row[ci] == schema["missing"]
+                    if typ != "boolean" and fc != is_missing and not (fc and str(col[ri]) == schema["missing"]):
+                        badfile = (ci, ri, row[ci], repr(col[ri]), repr(g))
+                        break
+                if badfile:
+                    break
+            ctx.check("file_fill_cells_are_missing_marker", badfile is None, case, first=badfile, schema=_brief(schema))
+        else:
+            ctx.count("file_oracle_skipped_row_count")
+    except Exception as e:
+        ctx.count("file_oracle_errors")
     ctx.case({**case, "sha": hashlib.sha1(raw).hexdigest()[:12]}, nontrivial=nonfill > 0)
     ctx.check("roundtrip_values", bad is None, case, first_mismatch=bad, schema=_brief(schema), file=raw[:400].decode("utf-8", "replace") if bad else None)
     ctx.cls(f"fields={len(names)}")
